@@ -39,7 +39,7 @@ def c01(tier):
         out.append(("%s-rk-nocontrol" % meth, _mk(method=meth, N=2, M=1, controls=[], ode=E("f", None, ("x", "t")))))
         out.append(("%s-rk-scaled" % meth, _mk(method=meth, N=2, M=2, scales={"x": "unknown", "u": "unknown"}, ode=E("f", None, ("x", "u", "t")))))
         # higher-order controls: helper states and helper control behind the user's own, integrator chain in the dynamics
-        for hoc in ([(1, 1)], [(2, 2)], [(1, 2), (1, 1)]):
+        for hoc in ([(1, 1)], [(2, 2)], [(1, 2), (1, 1)], [(1, 3)], [(2, 4), (1, 3)]):
             out.append(("%s-higher-order-control-%s" % (meth, "+".join("%dx%d" % h for h in hoc)),
                         _mk(method=meth, N=2, M=2, hoc=hoc, scales={"x": "unknown", "w": "unknown"}, T=("unknown",), ode=E("f", None, ("x", "u", "w", "t")),
                             constraints=[Con(E("cw", 1, ("x", "w", "u")), "le", 1.0), Con(E("cn", 1, ("w", ("off", "w", 1))), "le", 2.0), Con(E("cb", 1, (("at", "t0", "w"), ("at", "tf", "x"))), "eq", 0.0)],
@@ -135,6 +135,15 @@ def c05(tier):
             out.append(("%s-terms-%s" % (meth, gl),
                         _mk(method=meth, N=3, M=2, degree=2, grid=dict(g), T=Tk, t0=("unknown",), params={"": [1], "control": [1]},
                             variables={"": [1], "control": [1]}, ode=E("f", None, ("x", "u", "t")), objective=terms())))
+        # terms WITHOUT states, controls and time: per-interval variables / parameters (and the interval length) still differ
+        # from interval to interval
+        free_terms = lambda: [("sum", E("Sw", 1, ("vc", "pc"))), ("sum", E("Swp", 1, ("vcp", "pcp")), dict(include_last=True)),
+                              ("integral", E("Lw", 1, ("vc", "pc"))), ("integral", E("Lwc", 1, ("vc", "pc")), dict(grid="control")),
+                              ("sum", E("Sd", 1, ("DT_control", "p"))), ("at_tf", E("Mw", 1, ("vcp", "pcp"))), ("at_t0", E("M0w", 1, ("vc", "pc")))]
+        for gl, g in (("uniform", dict(kind="uniform")), ("geometric", dict(kind="geometric", growth=2.0))):
+            out.append(("%s-state-free-terms-%s" % (meth, gl),
+                        _mk(method=meth, N=3, M=2, degree=2, grid=dict(g), T=("unknown",), params={"": [1], "control": [1], "control+": [1]},
+                            variables={"control": [1], "control+": [1]}, ode=E("f", None, ("x", "u", "t")), objective=free_terms())))
         out.append(("%s-two-integrals" % meth, _mk(method=meth, N=2, M=1, degree=2, ode=E("f", None, ("x", "u", "t")),
                                                    objective=[("integral", E("L1", 1, ("x", "u"))), ("integral", E("L2", 1, ("x", "t")))])))
     for d in range(1, 6):
@@ -258,7 +267,7 @@ def c02(tier):
                 out.append(("DC-d%d-%s-dae-M2" % (d, sch),
                             _mk(method="DC", N=2, M=2, degree=d, scheme=sch, algebraics=[2], T=("unknown",),
                                 ode=E("f", None, ("x", "u", "z", "t")), alg=E("g", None, ("x", "z", "u", "t")))))
-    for hoc in ([(1, 1)], [(2, 2)], [(1, 2), (1, 1)]):
+    for hoc in ([(1, 1)], [(2, 2)], [(1, 2), (1, 1)], [(1, 3)], [(2, 4), (1, 3)]):
         out.append(("DC-higher-order-control-%s" % "+".join("%dx%d" % h for h in hoc),
                     _mk(method="DC", N=2, M=2, degree=2, hoc=hoc, scales={"x": "unknown", "w": "unknown", "der": "unknown"}, T=("unknown",), ode=E("f", None, ("x", "u", "w", "t")),
                         constraints=[Con(E("cw", 1, ("x", "w", "u")), "le", 1.0), Con(E("cn", 1, ("w", ("off", "w", 1))), "le", 2.0), Con(E("cb", 1, (("at", "t0", "w"), ("at", "tf", "x"))), "eq", 0.0)],
@@ -352,7 +361,7 @@ def c10(tier):
     return out
 
 
-def _with_generated(fn, select, n_quick, n_thorough, late=None):
+def _with_generated(fn, select, n_quick, n_thorough, late=None, concat=False):
     """catalogue family + the generated specifications (contracts/randspec.py) that are relevant for the property;
     late: every third one additionally gets this history (declarations made only after a first transcription)"""
     def fam(tier):
@@ -363,6 +372,9 @@ def _with_generated(fn, select, n_quick, n_thorough, late=None):
             kw = randspec.make(i)
             if select(kw):
                 out.append(("R%03d-%s" % (i, kw["method"]), (lambda i=i: Spec(**randspec.make(i)))))
+                if concat and len(kw["states"]) >= 2 and not kw["scales"].get("der"):
+                    # the right-hand sides given through ONE concatenation of the state symbols (reversed order)
+                    out.append(("R%03d-%s-concatenated-declarations" % (i, kw["method"]), (lambda i=i: Spec(concat=True, **randspec.make(i)))))
                 if late and i % 3 == 0:
                     def fac(i=i):
                         kw = randspec.make(i)
@@ -399,7 +411,7 @@ def _c13_generated(tier):
         def fac(i=i):
             kw = randspec.make(i)
             ini, after = randspec.make_initial(i, kw)
-            return Spec(late=randspec.make_late(i, kw), initial=ini, initial_after=after, **kw)
+            return Spec(late=randspec.make_late(i, kw), initial=ini, initial_after=after, concat=(i % 2 == 0), **kw)
         out.append(("R%03d-%s-history" % (i, kw["method"]), fac))
     return out
 
@@ -415,13 +427,27 @@ def _c09_generated(tier):
             continue
         late = dict(pvals=True) if i % 2 else None
         out.append(("R%03d-%s%s" % (i, kw["method"], "-values-changed-after-transcription" if late else ""), (lambda i=i, late=late: Spec(late=late, **randspec.make(i)))))
+        if i % 4 == 1:
+            # ... and THEN guesses are given (set_initial on the transcribed problem): the new values stay
+            def fac(i=i):
+                kw = randspec.make(i)
+                ini, _ = randspec.make_initial(i, kw)
+                return Spec(late=dict(pvals=True), initial=ini, initial_after="all", **kw)
+            out.append(("R%03d-%s-values-changed-then-guesses-given" % (i, kw["method"]), fac))
+        if len([n for n in kw["params"].get("", []) if not isinstance(n, tuple)]) >= 2:
+            out.append(("R%03d-%s-values-through-a-concatenation%s" % (i, kw["method"], "-also-after-transcription" if late else ""), (lambda i=i, late=late: Spec(late=late, concat=True, **randspec.make(i)))))
+    for meth in ("MS", "SS", "DC"):
+        for lt in (None, dict(pvals=True)):
+            out.append(("%s-vector-values-through-a-concatenation%s" % (meth, "-also-after-transcription" if lt else ""),
+                        _mk(method=meth, N=2, M=1, degree=2, params={"": [2, 1, 3]}, concat=True, late=lt, ode=E("f", None, ("x", "u", "p")),
+                            constraints=[Con(E("c", 1, ("x", "p")), "le", 1.0)])))
     return out
 
 
 NQ, NT = 80, 300
 FAMILIES = dict(C10=_c10_generated, C13=_c13_generated,
-                C01=_with_generated(c01, lambda kw: kw["method"] in ("MS", "SS"), NQ, NT, late=dict(ode=True)),
-                C02=_with_generated(c02, lambda kw: kw["method"] == "DC", NQ, NT, late=dict(ode=True)),
+                C01=_with_generated(c01, lambda kw: kw["method"] in ("MS", "SS"), NQ, NT, late=dict(ode=True), concat=True),
+                C02=_with_generated(c02, lambda kw: kw["method"] == "DC", NQ, NT, late=dict(ode=True), concat=True),
                 C04=_with_generated(c04, lambda kw: bool(kw["constraints"]), NQ, NT, late=dict(constraints=1)),
                 C05=_with_generated(c05, lambda kw: bool(kw["objective"]), NQ, NT, late=dict(objective=1)),
                 C06=_with_generated(c06, lambda kw: kw["grid"] != dict(kind="uniform"), NQ, NT),
